@@ -980,6 +980,27 @@ def rule_g6(F):
                 r.bad(path, "store", relfile(b.file), c["line"], "description stored under %s instead of %s" % (ga[0], st))
         if not found:
             r.bad(path, "constructor", relfile(b.file), b.line, "resolve() does not build a TypeDescription::%s" % want)
+        # .. and what resolve() RETURNS is that stored entry on every exit (the gate trusts the TypeId of the returned Ty): no exit
+        # hands back the entry of another type (a `Val<u32>` answering with the entry of `u32` is retrievable as `u32`)
+        if b.mir:
+            bdefs = mir.Defs(b)
+            store_blocks = {bi for bi, t in mir.calls(b) if (mir.callee_def(t) or "").endswith("TypeRegistry::store")}
+            other = []
+            for d in bdefs.defs.get(0, []):
+                if d[2] == "call":
+                    if d[0] not in store_blocks:
+                        other.append(hir.last(mir.callee_def(d[3]) or "?"))
+                elif d[2] == "assign":
+                    srcs = set()
+                    for x in mir.rv_locals(d[3]["rv"]):
+                        srcs |= mir.back_calls(b, bdefs, x)
+                    if not (srcs & store_blocks):
+                        other.append("a value that does not come from TypeRegistry::store")
+            r.inst("%s returns its own entry" % st, {"impl": st, "exits_not_from_store": other})
+            for o in other:
+                r.bad(path, "returns another entry", relfile(b.file), b.line,
+                      "an exit of <%s as Value>::resolve returns %s instead of the entry it stores for itself: the signature gate compares the TypeId of what resolve() returns, "
+                      "so this Rust type is accepted wherever the other one is" % (st, o))
     return r
 
 
